@@ -192,6 +192,23 @@ def check(run):
     run.clause('a datagram goes only to the socket bound to exactly the destination endpoint: registry lookups select by exact key (shared with C11)')
     import p11
     p11.exact_key_rule(run)
+    run.clause('the error_code a synchronous operation reports is the outcome of THAT call: every path through receive_from_impl / send_to_impl (and the TCP read/write twins) assigns or clears ec - a reader that drains until would_block and reuses its error_code must not see the stale would_block on the next successful receive')
+    for fname in (U + '::receive_from_impl', U + '::send_to_impl', 'sim::asio::ip::tcp::socket::read_some_impl', 'sim::asio::ip::tcp::socket::write_some_impl'):
+        f_ = fx.fn1(fname)
+        run.touch(f_)
+        wr = []
+        for n_ in f_.all_nodes():
+            if n_['k'] == 'call' and n_.get('opc') == '=' and n_.get('args') and q.render(f_, q.strip_casts(n_['args'][0])) == 'ec':
+                wr.append(n_)
+            elif n_['k'] == 'bin' and n_['op'] == '=' and q.render(f_, q.strip_casts(n_['lhs'])) == 'ec':
+                wr.append(n_)
+            elif n_['k'] == 'call' and is_node(n_.get('obj')) and q.render(f_, n_['obj']) == 'ec' and (q.callee_name(n_) or '').split('::')[-1] in ('clear', 'assign'):
+                wr.append(n_)
+            elif n_['k'] == 'call' and any(is_node(a_) and q.render(f_, q.strip_casts(a_)) == 'ec' for a_ in n_.get('args', [])) and 'error_code &' in (n_.get('csig') or ''):
+                wr.append(n_)       # passed on as an out-parameter (bind(..., ec))
+        run.check(bool(wr) and q.on_all_paths(f_, wr), 'R4', 'ec-set-on-every-path', fname, f_.loc(),
+                  'a path through %s returns without assigning or clearing ec (the success path): the caller\'s error_code keeps the value of an EARLIER call - after a would_block the next successful receive still reads as would_block and the datagram it delivered is taken for nothing' % fname.split('::')[-1],
+                  'ec assigned or cleared on every path')
     run.clause('a datagram that crossed a NAT is reported with the NAT\'s external address: the rewrite of the visible source is unconditional (shared with C13)')
     import p13
     p13.nat_from_rule(run)
